@@ -452,21 +452,87 @@ fn allowed_bits(flen: usize) -> Vec<usize> {
 fn flip(f: &mut [u8], bit: usize) {
     f[bit / 8] ^= 0x80 >> (bit % 8);
 }
+thread_local! {
+    /// per-thread working buffers: the valid frame alone, and the valid frame followed by a second copy of itself
+    static WORK: std::cell::RefCell<(Vec<u8>, Vec<u8>)> = std::cell::RefCell::new((vec![], vec![]));
+}
+
+/// one corruption of `orig` (a valid frame): is the damaged frame accepted by MessageFrame::new / delivered by the scanner?
+/// The damage is applied IN PLACE to a buffer in which the intact frame has just been accepted (a receive buffer that is
+/// reused: whatever the library remembers between calls must not let the damaged bytes through), and once more to a copy
+/// of the frame that FOLLOWS the intact frame in one buffer walked by MsgFrameIter (only the first may be delivered).
 fn try_corrupt(orig: &[u8], bits: &[usize]) -> (bool, bool) {
-    let mut g = orig.to_vec();
-    for b in bits {
-        flip(&mut g, *b);
-    }
-    let acc = guarded(|| MessageFrame::new(&g).is_ok()).unwrap_or(true);
-    let del = guarded(|| {
-        let (c, m) = next_msg_frame(&g);
-        match m {
-            Some(m) => m.frame_data().len() == g.len() && c == g.len() && m.frame_data().as_ptr() == g.as_ptr(),
-            None => false,
+    WORK.with(|w| {
+        let mut w = w.borrow_mut();
+        let (g, gg) = &mut *w;
+        if g.as_slice() != orig {
+            g.clear();
+            g.extend_from_slice(orig);
+            gg.clear();
+            gg.extend_from_slice(orig);
+            gg.extend_from_slice(orig);
         }
+        // the intact frame is accepted and delivered from this very buffer first
+        let ok_before = guarded(|| MessageFrame::new(g).is_ok() && next_msg_frame(g).1.is_some()).unwrap_or(false);
+        for b in bits {
+            flip(g, *b);
+            flip(&mut gg[orig.len()..], *b);
+        }
+        let acc = guarded(|| MessageFrame::new(g).is_ok()).unwrap_or(true);
+        let del = guarded(|| {
+            let (c, m) = next_msg_frame(g);
+            match m {
+                Some(m) => m.frame_data().len() == g.len() && c == g.len() && m.frame_data().as_ptr() == g.as_ptr(),
+                None => false,
+            }
+        })
+        .unwrap_or(true);
+        // intact frame followed by the damaged copy: the iterator may deliver frames that END inside the first copy only
+        let del2 = guarded(|| {
+            let mut it = MsgFrameIter::new(gg);
+            let mut bad = false;
+            let mut n = 0;
+            for f in &mut it {
+                n += 1;
+                let start = f.frame_data().as_ptr() as usize - gg.as_ptr() as usize;
+                if start + f.frame_data().len() > orig.len() && start + f.frame_data().len() == gg.len() && start == orig.len() {
+                    bad = true; // the damaged copy itself was delivered
+                }
+                if n > 8 {
+                    break;
+                }
+            }
+            bad
+        })
+        .unwrap_or(true);
+        // the damaged copy FOLLOWED by the intact frame: whatever is delivered must be the intact bytes of the second copy
+        for b in bits {
+            flip(&mut gg[orig.len()..], *b); // restore the second copy
+            flip(&mut gg[..orig.len()], *b); // damage the first
+        }
+        let del3 = guarded(|| {
+            let mut it = MsgFrameIter::new(gg);
+            let mut bad = false;
+            let mut n = 0;
+            for f in &mut it {
+                n += 1;
+                let start = f.frame_data().as_ptr() as usize - gg.as_ptr() as usize;
+                if f.frame_data().len() == orig.len() && (start == 0 || f.frame_data() != orig) {
+                    bad = true; // the damaged copy (or its bytes under the intact frame's name) was delivered
+                }
+                if n > 8 {
+                    break;
+                }
+            }
+            bad
+        })
+        .unwrap_or(true);
+        for b in bits {
+            flip(g, *b);
+            flip(&mut gg[..orig.len()], *b);
+        }
+        (acc || !ok_before, del || del2 || del3)
     })
-    .unwrap_or(true);
-    (acc, del)
 }
 
 /// C04: corruption campaigns with aggregated, lossless observations (frames are processed in parallel)
